@@ -237,6 +237,7 @@ pub fn hostile(tier: Tier, name: &str, incoming: bool, prefix: Vec<Act>, depth: 
     cfg.incoming = incoming;
     cfg.rx_buf = 4 * MSS;
     cfg.max_retx = 3;
+    cfg.hostile_sack = true;
     let def = WndSpec::Default;
     let mut alphabet: Vec<Act> = vec![];
     for ack in [AckSpec::Stale, AckSpec::Cur, AckSpec::Plus(1), AckSpec::All, AckSpec::Beyond, AckSpec::Far, AckSpec::Half] {
